@@ -32,7 +32,7 @@ def run_c07(tier, seed):
         require_clean_mc(res, "WhisperFormat")
         n = _cases(res["path"], "FORMAT_CASES")
         outj = os.path.join(wd, "fmt.json")
-        p = subprocess.run([binp, "format", res["path"], outj], stdout=subprocess.PIPE, stderr=subprocess.STDOUT, text=True, timeout=HARNESS_TIMEOUT)
+        p = run_harness([binp, "format", res["path"], outj], stdout=subprocess.PIPE, stderr=subprocess.STDOUT, text=True, timeout=HARNESS_TIMEOUT)
         if p.returncode != 0:
             raise Broken("format harness failed: " + p.stdout[-2000:])
         r = json.load(open(outj))
@@ -72,7 +72,7 @@ def run_c19(tier, seed):
         require_clean_mc(res, "TextSyntax")
         n = _cases(res["path"], "TEXT_CASES")
         outj = os.path.join(wd, "str.json")
-        p = subprocess.run([binp, "text-strings", res["path"], outj], stdout=subprocess.PIPE, stderr=subprocess.STDOUT, text=True, timeout=HARNESS_TIMEOUT)
+        p = run_harness([binp, "text-strings", res["path"], outj], stdout=subprocess.PIPE, stderr=subprocess.STDOUT, text=True, timeout=HARNESS_TIMEOUT)
         if p.returncode != 0:
             raise Broken("text-strings failed: " + p.stdout[-2000:])
         r = json.load(open(outj))
@@ -84,7 +84,7 @@ def run_c19(tier, seed):
 
         def part(i):
             tf = os.path.join(wd, "tt%d.ndjson" % i)
-            p = subprocess.run([binp, "drive-text", str(seed * 1000 + i), str(per), tf], stdout=subprocess.PIPE, stderr=subprocess.STDOUT, text=True, timeout=HARNESS_TIMEOUT)
+            p = run_harness([binp, "drive-text", str(seed * 1000 + i), str(per), tf], stdout=subprocess.PIPE, stderr=subprocess.STDOUT, text=True, timeout=HARNESS_TIMEOUT)
             if p.returncode != 0:
                 raise Broken("drive-text failed: " + p.stdout[-1000:])
             lines = open(tf).read().splitlines()
@@ -121,7 +121,7 @@ def run_c19(tier, seed):
         if tier == "thorough":
             for what in ("durations", "timestamps"):
                 sj = os.path.join(wd, "sweep_%s.json" % what)
-                p = subprocess.run([binp, "text-sweep", sj, what], stdout=subprocess.PIPE, stderr=subprocess.STDOUT, text=True, timeout=HARNESS_TIMEOUT)
+                p = run_harness([binp, "text-sweep", sj, what], stdout=subprocess.PIPE, stderr=subprocess.STDOUT, text=True, timeout=HARNESS_TIMEOUT)
                 if p.returncode != 0:
                     raise Broken("text-sweep failed: " + p.stdout[-1000:])
                 sr = json.load(open(sj))
@@ -157,11 +157,11 @@ def run_codec(prop, tier, seed):
         require_clean_mc(res, "WhisperCodec")
         outj = os.path.join(wd, "out.json")
         if prop == "C14":
-            p = subprocess.run([binp, "codec", res["path"], outj], stdout=subprocess.PIPE, stderr=subprocess.STDOUT, text=True, timeout=HARNESS_TIMEOUT)
+            p = run_harness([binp, "codec", res["path"], outj], stdout=subprocess.PIPE, stderr=subprocess.STDOUT, text=True, timeout=HARNESS_TIMEOUT)
             kind = "codec-case"
         else:
             nmut = {"quick": 600, "thorough": 100000}[tier]
-            p = subprocess.run([binp, "hostile", res["path"], str(seed), str(nmut), outj], stdout=subprocess.PIPE, stderr=subprocess.STDOUT, text=True, timeout=HARNESS_TIMEOUT)
+            p = run_harness([binp, "hostile", res["path"], str(seed), str(nmut), outj], stdout=subprocess.PIPE, stderr=subprocess.STDOUT, text=True, timeout=HARNESS_TIMEOUT)
             kind = "hostile-case"
         if p.returncode != 0:
             raise Broken("%s harness failed: %s" % (prop, p.stdout[-2000:]))
